@@ -1,3 +1,80 @@
-From Iodine Require Import Tunnel.
-Theorem C02_placeholder : True. Proof. exact I. Qed.
-Print Assumptions C02_placeholder.
+(* Properties_C02.v -- final statements for property C02 (progress and recovery, no wedge).
+
+   C02 is a liveness property of two programs with timers running over a faulty network.  What is
+   proved here, and what is left to the timed whole-system oracle of the check:
+
+   (A) LOGIC OF BOTH FRAGMENT/ACK STATE MACHINES (ProtoLive.v over ProtoUp.v / ProtoDown.v): on a
+       clean path -- each round the sender's current chunk reaches the receiver and the receiver's
+       acknowledgement for that very chunk reaches the sender -- every round makes progress; a packet
+       of n <= 16 fragments accepted while the receiver is at most 3 packets behind is handed to
+       uncompress() EXACTLY ONCE, complete, after exactly n rounds, and both sides end synchronised;
+       hence any sequence of packets is delivered exactly once each in the order accepted
+       (C02_*_clean_path_exactly_once_in_order); and from ANY state reachable inside N* in which a
+       packet is in flight and the receiver is at most 4 packets behind, the packet in flight is
+       completed within n - j rounds and the sides are synchronised (C02_upstream_recovery).
+   (B) TIMERS OF THE CLIENT (TimerProofs.v over Client.v): from every client state four consecutive
+       select timeouts end the sending state (packet given up after the 3rd retransmission), and the
+       select timeout is always positive and bounded -- the client cannot stay wedged on a packet
+       nor sleep forever.
+   C02_partial: not proved: that the real select loops schedule a clean round within a bounded TIME
+   (composition of the timers of both programs with the network), the server's send-real-soon
+   sweep and lazy-mode hold, the downstream recovery from an arbitrary state, and the re-synchronisation
+   when the receiver is 5..8 packets behind (the logic then loses up to 4 leading packets: the
+   "recent seqno" window; measured by the oracle as RESYNC_LOSS).  Those parts are decided by the
+   correspondence of Client.v/Server.v/Tunnel.v with the C code plus the exactly-once / bounded-time
+   oracle on the real programs in virtual time. *)
+From Coq Require Import List Arith Bool Lia NArith.
+From Iodine Require Import ProtoUp ProtoUpProofs ProtoDown ProtoDownProofs ProtoLive Client TimerProofs.
+Import ListNotations.
+
+Theorem C02_upstream_clean_path_exactly_once_in_order_partial :
+  forall ns s outs,
+  Inv s -> sact (snd_ s) = false -> sk (snd_ s) <= rR (rcv_ s) + 3 -> Forall (fun n => 1 <= n <= 16) ns ->
+  exists s', clean_packets ns s outs = Some (s', outs ++ tags_from (S (sk (snd_ s))) ns) /\ Inv s' /\
+             sact (snd_ s') = false /\ sk (snd_ s') = sk (snd_ s) + length ns /\
+             (ns <> [] -> rR (rcv_ s') = sk (snd_ s')).
+Proof. exact clean_packets_spec. Qed.
+Print Assumptions C02_upstream_clean_path_exactly_once_in_order_partial.
+
+Theorem C02_downstream_clean_path_exactly_once_in_order_partial :
+  forall ns s outs,
+  DInv s -> dact (dsnd s) = false -> dk (dsnd s) <= cR (drcv s) + 3 -> Forall (fun n => 1 <= n <= 16) ns ->
+  exists s', dclean_packets ns s outs = Some (s', outs ++ tags_from (S (dk (dsnd s))) ns) /\ DInv s' /\
+             dact (dsnd s') = false /\ dk (dsnd s') = dk (dsnd s) + length ns /\
+             (ns <> [] -> cR (drcv s') = dk (dsnd s')).
+Proof. exact dclean_packets_spec. Qed.
+Print Assumptions C02_downstream_clean_path_exactly_once_in_order_partial.
+
+Theorem C02_upstream_recovery_partial :
+  forall s outs,
+  reach s outs -> sact (snd_ s) = true -> sk (snd_ s) <= rR (rcv_ s) + 4 ->
+  exists s' outs', clean_rounds (sn (snd_ s) - sf (snd_ s)) s outs = Some (s', outs') /\ Inv s' /\
+     sact (snd_ s') = false /\ sk (snd_ s') = sk (snd_ s) /\ rR (rcv_ s') = sk (snd_ s) /\
+     (outs' = outs \/ outs' = outs ++ [seq_tags (sk (snd_ s)) (sn (snd_ s))]).
+Proof. exact clean_recovery. Qed.
+Print Assumptions C02_upstream_recovery_partial.
+
+(* the premises are met by the initial state and by every state the exactly-once theorem ends in *)
+Example C02_nonvacuous :
+  (Inv init /\ sact (snd_ init) = false /\ sk (snd_ init) <= rR (rcv_ init) + 3) /\
+  (DInv dinit /\ dact (dsnd dinit) = false /\ dk (dsnd dinit) <= cR (drcv dinit) + 3) /\
+  (exists s, clean_packets [3; 1; 16] init [] = Some (s, [seq_tags 1 3; seq_tags 2 1; seq_tags 3 16])) /\
+  (exists s, dclean_packets [2; 16; 1] dinit [] = Some (s, [seq_tags 1 2; seq_tags 2 16; seq_tags 3 1])).
+Proof.
+  split; [split; [exact inv_init|split; [reflexivity|cbn; lia]]|].
+  split; [split; [exact dinv_init|split; [reflexivity|cbn; lia]]|].
+  split; vm_compute; eexists; reflexivity.
+Qed.
+Print Assumptions C02_nonvacuous.
+
+Theorem C02_client_gives_up_within_4_timeouts :
+  forall s, (c_resent s <= 3)%N -> is_sending (timeouts 4 s) = false.
+Proof. exact client_gives_up_within_4_timeouts. Qed.
+Print Assumptions C02_client_gives_up_within_4_timeouts.
+
+Theorem C02_client_select_timeout_bounded :
+  forall s, (0 < c_selecttimeout s)%N ->
+  (0 < select_timeout_ms s)%N /\
+  (select_timeout_ms s <= N.max (c_ping_soon s) (N.max 1000 (c_selecttimeout s * 1000)))%N.
+Proof. exact select_timeout_bounded. Qed.
+Print Assumptions C02_client_select_timeout_bounded.
